@@ -110,7 +110,8 @@ Definition init_sess (sch : schema) : sess :=
    partial failures): 1 failed creation leaves a phantom object; 2 Entity.set fails on a later key after an earlier index update;
    3 Entity.set fails in a collection argument after index / collection updates; 4 collection assignment fails after cascaded
    removals; 5 auto-generated id clashes with a cached object, the inserted row stays; 6 a row is loaded over a reference that was
-   written but never loaded; 7 unique-index conflict while loading a row; 8 the row of a created object is loaded.
+   written but never loaded; 7 unique-index conflict while loading a row; 8 the row of a created object is loaded;
+   9 delete() raised (a load conflict, an assertion of a damaged session) after its cascade may have started: the undo is partial.
    Assertion sites (believed unreachable in a clean state, checked only while no other dirty site was reached; a hit during the
    correspondence run is reported as a broken tie): 20 the database value
    of a loaded attribute changed; 21 an unwritten attribute has a value but no database value; 22 a row appears in a fully loaded
@@ -1322,7 +1323,11 @@ Definition lift_unit (r : out unit) : sess * res :=
 Definition delete_op (sch : schema) (s : sess) (h : nat) : sess * res :=
   match hget s h with
   | None => (s, RErr EBadHandle)
-  | Some o => lift_unit (delete_obj (del_fuel sch s) sch s o)
+  | Some o =>
+    match delete_obj (del_fuel sch s) sch s o with
+    | Ok s1 _ => (s1, ROk)
+    | Err s1 er => (mark_dirty s1 9, RErr er)     (* _delete_ raised after its cascade may have started: the undo is partial (dirty site 9) *)
+    end
   end.
 
 Inductive collop : Type := CAdd | CRemove | CAssign.
